@@ -40,8 +40,8 @@ Theorem C18_failing_writer_prefix :
        (if live then gen = RDone s (SinkTop w) /\ p = out else gen = RFail ErrIo)) /\
   (gen = ROutOfFuel -> inf = ROutOfFuel).
 Proof.
-  intros W pw acc Hl wd fuel tpl block c g w0.
-  exact (failing_writer_prefix _ (render_to_simulable wd fuel tpl block c g) W pw acc Hl w0).
+  exact (fun W pw acc Hl wd fuel tpl block c g w0 =>
+    failing_writer_prefix _ (render_to_simulable wd fuel tpl block c g) W pw acc Hl w0).
 Qed.
 
 (* the same for interpret() on any chunk from any state (includes, blocks, components start here) *)
@@ -59,8 +59,8 @@ Theorem C18_failing_writer_prefix_run :
        (if live then gen = RDone s (SinkTop w) /\ p = out else gen = RFail ErrIo)) /\
   (gen = ROutOfFuel -> inf = ROutOfFuel).
 Proof.
-  intros W pw acc Hl wd fuel tpl ae depth ch ip st w0.
-  exact (failing_writer_prefix _ (run_simulable wd fuel tpl ae depth ch ip st) W pw acc Hl w0).
+  exact (fun W pw acc Hl wd fuel tpl ae depth ch ip st w0 =>
+    failing_writer_prefix _ (run_simulable wd fuel tpl ae depth ch ip st) W pw acc Hl w0).
 Qed.
 
 (* the task's formulation: an arbitrary VM-level writer with an observation of the accepted text *)
@@ -71,8 +71,8 @@ Theorem C18_accepting_writer_agrees :
   render_to W wr wd fuel tpl block c g w0 = RDone s (SinkTop w) ->
   exists out, render_to str wr_str wd fuel tpl block c g [] = RDone s (SinkTop out) /\ acc w = acc w0 ++ out.
 Proof.
-  intros W wr acc Ha wd fuel tpl block c g w0 s w.
-  exact (accepting_writer_agrees _ (render_to_simulable wd fuel tpl block c g) W wr acc Ha w0 s w).
+  exact (fun W wr acc Ha wd fuel tpl block c g w0 s w =>
+    accepting_writer_agrees _ (render_to_simulable wd fuel tpl block c g) W wr acc Ha w0 s w).
 Qed.
 
 (* the writers the correspondence uses are lawful *)
@@ -91,8 +91,8 @@ Theorem C18_write_calls_are_ordered :
   render_to W (wr_of pw) wd fuel tpl block c g w0
     = match feed (wr_of pw) w0 l with Some w => RDone s (SinkTop w) | None => RFail ErrIo end.
 Proof.
-  intros wd fuel tpl block c g W pw w0 out0 s l.
-  exact (write_calls_are_ordered _ (render_to_simulable wd fuel tpl block c g) W pw w0 out0 s l).
+  exact (fun wd fuel tpl block c g W pw w0 out0 s l =>
+    write_calls_are_ordered _ (render_to_simulable wd fuel tpl block c g) W pw w0 out0 s l).
 Qed.
 
 Theorem C18_write_calls_failing_run :
@@ -102,8 +102,8 @@ Theorem C18_write_calls_failing_run :
   (forall e, log = RFail e -> gen = RFail e \/ gen = RFail ErrIo) /\
   (log = ROutOfFuel -> gen = ROutOfFuel \/ gen = RFail ErrIo).
 Proof.
-  intros wd fuel tpl block c g W wr w0.
-  exact (write_calls_failing_run _ (render_to_simulable wd fuel tpl block c g) W wr w0).
+  exact (fun wd fuel tpl block c g W wr w0 =>
+    write_calls_failing_run _ (render_to_simulable wd fuel tpl block c g) W wr w0).
 Qed.
 
 (* 2. render_eq_render_to — each String-returning API function against its `_to` variant run on
@@ -120,28 +120,28 @@ Definition agrees (F : runner) (string_result : res str) : Prop :=
 
 Theorem C18_render_eq_render_to : forall wd fuel name c g,
   agrees (fun W wr w => tera_render_to W wr wd fuel name c g w) (tera_render wd fuel name c g).
-Proof. intros. exact (string_variant_agrees _ (tera_render_to_simulable wd fuel name c g)). Qed.
+Proof. exact (fun wd fuel name c g => string_variant_agrees _ (tera_render_to_simulable wd fuel name c g)). Qed.
 
 Theorem C18_render_block_eq_render_block_to : forall wd fuel name block c g,
   agrees (fun W wr w => tera_render_block_to W wr wd fuel name block c g w)
          (tera_render_block wd fuel name block c g).
-Proof. intros. exact (string_variant_agrees _ (tera_render_block_to_simulable wd fuel name block c g)). Qed.
+Proof. exact (fun wd fuel name block c g => string_variant_agrees _ (tera_render_block_to_simulable wd fuel name block c g)). Qed.
 
 Theorem C18_render_component_eq_render_component_to : forall wd fuel comp src supplied body ae,
   agrees (fun W wr w => tera_render_component_to W wr wd fuel comp src supplied body ae w)
          (tera_render_component wd fuel comp src supplied body ae).
-Proof. intros. exact (string_variant_agrees _ (tera_render_component_to_simulable wd fuel comp src supplied body ae)). Qed.
+Proof. exact (fun wd fuel comp src supplied body ae => string_variant_agrees _ (tera_render_component_to_simulable wd fuel comp src supplied body ae)). Qed.
 
 Theorem C18_render_str_eq_render_str_to : forall wd fuel one_off ae c g,
   agrees (fun W wr w => tera_render_str_to W wr wd fuel one_off ae c g w)
          (tera_render_str wd fuel one_off ae c g).
-Proof. intros. exact (string_variant_agrees _ (tera_render_str_to_simulable wd fuel one_off ae c g)). Qed.
+Proof. exact (fun wd fuel one_off ae c g => string_variant_agrees _ (tera_render_str_to_simulable wd fuel one_off ae c g)). Qed.
 
 (* Tera::one_off is render_str on a default instance with an empty global context *)
 Theorem C18_one_off_eq_render_str_to : forall default_world fuel one_off ae c,
   agrees (fun W wr w => tera_render_str_to W wr default_world fuel one_off ae c [] w)
          (tera_one_off default_world fuel one_off ae c).
-Proof. intros. exact (string_variant_agrees _ (tera_render_str_to_simulable default_world fuel one_off ae c [])). Qed.
+Proof. exact (fun default_world fuel one_off ae c => string_variant_agrees _ (tera_render_str_to_simulable default_world fuel one_off ae c [])). Qed.
 
 (* the block variant: everything is rendered into io::sink(), then block_buffer is written:
    the writer receives exactly block_buffer of the final state *)
@@ -162,7 +162,7 @@ Proof. exact render_block_two_step. Qed.
    buffer equal the same renders performed independently *)
 Theorem C18_render_pure_history : forall wd fuel tpl block c g h,
   render_to str wr_str wd fuel tpl block c g h = shift h (render_to str wr_str wd fuel tpl block c g []).
-Proof. intros. exact (buffer_history_irrelevant _ (render_to_simulable wd fuel tpl block c g) h). Qed.
+Proof. exact (fun wd fuel tpl block c g h => buffer_history_irrelevant _ (render_to_simulable wd fuel tpl block c g) h). Qed.
 
 Theorem C18_render_pure_sequence : forall reqs, Forall simulable reqs -> forall h,
   render_seq reqs h = option_map (fun os => h ++ concat os) (render_each reqs).
